@@ -413,7 +413,11 @@ func (g *Values) Fill(v reflect.Value) {
 		}
 		v.SetUint(x)
 	case reflect.Float32:
-		v.SetFloat(float64(float32(g.float())))
+		f := float64(float32(g.float()))
+		if math.IsInf(f, 0) {
+			f = 1.5
+		}
+		v.SetFloat(f)
 	case reflect.Float64:
 		v.SetFloat(g.float())
 	case reflect.String:
